@@ -458,6 +458,30 @@ def year_alignment_rule(R, lib, T):
     if strict is None:
         R.violation('D', 'BasicZoneProcessor::findLatestPriorRule:comparator', flp.loc, 'no test "rule.fromYearTiny() < %s" selects the rules effective before the given year' % yparam)
         return
+    # priorYearOfRule(year, rule) ranks the rules that are effective before `year`: whatever it returns must be a year
+    # strictly before `year` on every path (otherwise an expiring rule outranks a later-month rule that is still running)
+    from .gnf import SymExec, cmp_formula, valuations
+    pf = lib.fns(BASIC + '::priorYearOfRule')
+    if not pf:
+        raise AnalysisError('anchor vanished: BasicZoneProcessor::priorYearOfRule')
+    pf = pf[0]
+    summ = SymExec(fold_global=lib.global_value).run(pf.name, pf.body, {})
+    ysym = Poly.atom(('sym', pf.params[0][0]))
+    cpr = 'BasicZoneProcessor::priorYearOfRule:result-before-year'
+    R.instance('D', cpr, pf.loc, '%d paths' % len(summ.paths))
+    for g_, kind_, res_, _eff in summ.paths:
+        if kind_ != 'return' or res_ is None:
+            R.violation('D', cpr, pf.loc, 'a path does not return a year')
+            continue
+        target = cmp_formula('<', Poly(dict(res_)), ysym)
+        bad_val = None
+        for val in valuations([g_, target]):
+            if val.eval(g_) and not val.eval(target):
+                bad_val = val.describe()
+                break
+        if bad_val is not None:
+            R.violation('D', cpr, pf.loc, 'on the path taken when %s the function returns %r, which is not before %s: a rule that expires in the queried year is ranked as '
+                        'if it were still the latest prior, and wins over a later-month rule that is still running' % (bad_val, Poly(dict(res_)), pf.params[0][0]))
     n_sites = 0
     for fname in ('addTransitionPriorToYear', 'addTransitionsForYear', 'addTransitionAfterYear'):
         fs = lib.fns(BASIC + '::' + fname)
@@ -570,6 +594,8 @@ SELFTEST = [
     dict(id='after-year-bound-without-shipped-effect-silent', file='src/ace_time/BasicZoneProcessor.h',
          find='      basic::ZoneRuleBroker latest = findLatestPriorRule(\n          eraAfter.zonePolicy(), yearTiny + 1);', replace='      basic::ZoneRuleBroker latest = findLatestPriorRule(\n          eraAfter.zonePolicy(), yearTiny);',
          expect='silent'),
+    dict(id='prior-year-of-expiring-rule', file='src/ace_time/BasicZoneProcessor.h', find='      if (rule.toYearTiny() < yearTiny) {\n        return rule.toYearTiny();',
+         replace='      if (rule.toYearTiny() <= yearTiny) {\n        return rule.toYearTiny();', rule='D', construct='priorYearOfRule'),
     dict(id='anchor-from-any-rule', file='tools/tzdb/transformer.py',
          find="            if (rule['deltaSeconds'] == 0\n                    and rule_date < anchor_info['earliestDate']):", replace="            if rule_date < anchor_info['earliestDate']:", rule='E'),
     dict(id='anchor-guard-nested-silent', file='tools/tzdb/transformer.py',
